@@ -5,7 +5,7 @@
    work-list loop); [Inv]: count = #handles + #statics + #parent edges for every
    alive node, dead nodes own nothing, counts of alive nodes are positive. *)
 From Coq Require Import List Arith.
-From LF Require Import Conc.Refcount Conc.RefcountSem.
+From LF Require Import Conc.Refcount Conc.RefcountSem Conc.RefcountAssign.
 
 (* the reference-count invariant holds in every state reachable by ANY finite
    sequence of operations (aliasing, sharing, any deletion order) *)
@@ -71,6 +71,60 @@ Proof. exact destructor_terminates_edges. Qed.
 Theorem C13_invariant_example : Inv ex_state.
 Proof. exact ex_inv. Qed.
 
+(* copy-assignment [t = other] of handle i (holding node n) from a source handle
+   that need not be in the client's pool (e.g. the child handle stored inside n,
+   as in [t = t->lhs();]) and of which only the target node c is known.
+   [rassign_good]: retain c, then run ~Tree() on the old node (libfive:
+   Tree(other.ptr, true, flags), then move-assign; the old value dies last).
+   It preserves the invariant, the destructor never touches a deleted cell, and
+   no handle dangles afterwards. *)
+Theorem C13_assign_preserves_invariant : forall fuel s i n c,
+  Inv s -> fuel_ok fuel s -> hnd s i = Some n ->
+  live (r_heap s) c = true ->
+  let s' := rassign_good fuel s i c in
+  Inv s' /\
+  hnd s' i = Some c /\ live (r_heap s') c = true /\
+  (forall j m, hnd s' j = Some m -> live (r_heap s') m = true) /\
+  (forall j, j <> i -> hnd s' j = hnd s j) /\
+  (exists log, drop_i fuel (inc (r_heap s) c) n = Done (r_heap s') log).
+Proof. exact assign_good_preserves_inv. Qed.
+
+(* [rassign_bad]: `this->~Tree(); new (this) Tree(other);` -- ~Tree() on the old
+   node first, then retain c.  On the legal state [walk_state] (node 0 a leaf
+   owned only by node 1; node 1 a unary node over 0 owned only by handle 0)
+   assigning handle 0 from its own child deletes nodes 1 and 0 before the source
+   is retained: the handle ends up on a deleted cell whose count was incremented
+   anyway, and the invariant fails.  The good order on the same state is fine. *)
+Theorem C13_destroy_then_copy_refuted :
+  let s := walk_state in
+  Inv s /\ fuel_ok 10 s /\ hnd s 0 = Some 1 /\
+  c_rc (hget (r_heap s) 1) = 1 /\
+  In 0 (c_kids (hget (r_heap s) 1)) /\ live (r_heap s) 0 = true /\
+  live (drop 10 (r_heap s) 1) 1 = false /\
+  live (drop 10 (r_heap s) 1) 0 = false /\
+  (let sb := rassign_bad 10 s 0 0 in
+   hnd sb 0 = Some 0 /\
+   c_alive (hget (r_heap sb) 0) = false /\
+   c_rc (hget (r_heap sb) 0) = 1 /\
+   ~ Inv sb) /\
+  (let sg := rassign_good 10 s 0 0 in
+   hnd sg 0 = Some 0 /\
+   c_alive (hget (r_heap sg) 0) = true /\
+   c_rc (hget (r_heap sg) 0) = 1 /\
+   live (r_heap sg) 1 = false /\
+   Inv sg).
+Proof. exact assign_bad_refuted. Qed.
+
+(* when the old node n has another owner (count >= 2) the two orders compute the
+   same state, whatever c is (also c = n): a test that only assigns between
+   independently owned handles cannot tell them apart *)
+Theorem C13_assign_orders_agree_when_shared : forall fuel s i n c,
+  hnd s i = Some n ->
+  2 <= c_rc (hget (r_heap s) n) ->
+  rassign_good fuel s i c = rassign_bad fuel s i c /\
+  r_heap (rassign_good fuel s i c) = inc (dec (r_heap s) n) c.
+Proof. exact assign_orders_agree_when_shared. Qed.
+
 Print Assumptions C13_invariant_every_reachable_state.
 Print Assumptions C13_step_preserves_invariant.
 Print Assumptions C13_no_use_after_free.
@@ -80,3 +134,6 @@ Print Assumptions C13_leak_free.
 Print Assumptions C13_alive_iff_reachable.
 Print Assumptions C13_destructor_terminates.
 Print Assumptions C13_invariant_example.
+Print Assumptions C13_assign_preserves_invariant.
+Print Assumptions C13_destroy_then_copy_refuted.
+Print Assumptions C13_assign_orders_agree_when_shared.
